@@ -26,6 +26,9 @@ pub struct Outcome {
     pub cs: CrashStats,
     pub crashes: u64,
     pub nontrivial_crashes: u64,
+    /// crashes preceded by a data sync through a read-only descriptor of a
+    /// file that had unsynced data
+    pub ro_sync_crashes: u64,
 }
 
 fn add_cs(a: &mut CrashStats, b: &CrashStats) {
@@ -41,6 +44,7 @@ fn add_cs(a: &mut CrashStats, b: &CrashStats) {
     a.admissible_max = a.admissible_max.max(b.admissible_max);
     a.too_many_candidates += b.too_many_candidates;
     a.adopted_non_base += b.adopted_non_base;
+    a.synced_extensions += b.synced_extensions;
 }
 
 /// Run one history (with its embedded Crash ops) on a directly driven Fs.
@@ -50,8 +54,14 @@ pub fn run_direct(cfg: &Cfg, h: &[Op], st: &mut Stats, sweep_precrash: bool) -> 
     let mut model = Durable::new(cfg.sync_prob > 0.0, cfg.block);
     let mut out = Outcome::default();
     let mut removed = Default::default();
+    let mut diverged_at_sync = false;
+    let mut ro_sync_dirty = false;
     for (i, op) in h.iter().enumerate() {
         if matches!(op, Op::Crash) {
+            diverged_at_sync = false;
+            if std::mem::take(&mut ro_sync_dirty) {
+                out.ro_sync_crashes += 1;
+            }
             real.crash();
             let mut cs = CrashStats::default();
             let mut obs = |p: &str| real.observe(p);
@@ -78,6 +88,15 @@ pub fn run_direct(cfg: &Cfg, h: &[Op], st: &mut Stats, sweep_precrash: bool) -> 
             continue;
         }
         diff::note_semantics(st, &model.v, op, &mut removed);
+        if op.is_ro_sync() {
+            if let Op::Handle { p, .. } = op {
+                if let Ok(i) = model.v.lookup(p) {
+                    if model.files.get(&i).map(|f| !f.log.is_empty()).unwrap_or(false) {
+                        ro_sync_dirty = true;
+                    }
+                }
+            }
+        }
         let exp = model.v.apply(op);
         model.absorb();
         let ret = real.exec(op);
@@ -85,17 +104,34 @@ pub fn run_direct(cfg: &Cfg, h: &[Op], st: &mut Stats, sweep_precrash: bool) -> 
             out.discarded = Some(format!("volatile-divergence:ret:{}", op.kind()));
             return out;
         }
-        if sweep_precrash {
+        if sweep_precrash && !diverged_at_sync {
             let ms = diff::model_sweep(&model.v, &uni);
             let rs = real.sweep(&uni);
             if diff::sweep_diff(&uni, &ms, &rs).is_some() {
-                out.discarded = Some("volatile-divergence:state".into());
-                return out;
+                if synclike(op) {
+                    // A data / directory sync changed what is observable: what it
+                    // wrote to the durable side is exactly what C07 is about, so
+                    // the history is NOT handed to C10 — the next crash judges it
+                    // (sweeps are off until then; a return-value mismatch still
+                    // discards).
+                    diverged_at_sync = true;
+                    st.inc("precrash_divergence_at_sync_kept");
+                } else {
+                    out.discarded = Some("volatile-divergence:state".into());
+                    return out;
+                }
             }
         }
     }
     st.add("uring_ops", real.uring_ops);
     out
+}
+
+/// Operations whose only job is to move state to the durable side.
+fn synclike(op: &Op) -> bool {
+    op.is_sync()
+        || op.is_ro_sync()
+        || matches!(op, Op::Handle { steps, .. } if steps.iter().any(|s| matches!(s, crate::ops::Step::SyncAll | crate::ops::Step::SyncData)))
 }
 
 fn outcome_class(o: &Outcome) -> Option<&str> {
@@ -189,6 +225,8 @@ fn absorb_outcome(out: &mut ScenarioOut, o: &Outcome) {
     out.count("admissible_set_size_total", o.cs.admissible_set_sizes);
     out.count("skipped_too_many_candidates", o.cs.too_many_candidates);
     out.count("adopted_non_base_content", o.cs.adopted_non_base);
+    out.count("crash_after_synced_extending_set_len", o.cs.synced_extensions);
+    out.count("fsync_through_readonly_fd_then_crash", o.ro_sync_crashes);
     if let Some(d) = &o.discarded {
         out.count(&format!("discarded:{d}"), 1);
     }
@@ -368,6 +406,97 @@ fn gen_publish(rng: &mut Rng) -> (Vec<Op>, Vec<&'static str>) {
     (h, tags)
 }
 
+/// Structured "preallocate / sync through another descriptor" histories: a
+/// file is extended by set_len (Op::SetLen or a set_len step on a handle,
+/// directly or shrink-then-grow) without a write reaching the new end, and / or
+/// written through one handle, then data-synced through sync_all, sync_data,
+/// an io_uring fsync or a READ-ONLY descriptor (std / tokio / ring), its entry
+/// is made durable, and the crash after every prefix follows; a second
+/// generation after a crash repeats it on the survivor.
+fn gen_extend(rng: &mut Rng) -> Vec<Op> {
+    use crate::ops::{Flags, Step};
+    let fe = |rng: &mut Rng| *rng.pick(&[Fe::Std, Fe::Std, Fe::Tokio]);
+    let p: String = (*rng.pick(&["/a", "/b", "/d/a"])).into();
+    let mut h = vec![];
+    if p.starts_with("/d/") {
+        h.push(Op::CreateDir { p: "/d".into(), fe: Fe::Std });
+        h.push(Op::SyncDir { p: "/".into(), fe: Fe::Std });
+    }
+    let parent = crate::ops::parent_of(&p);
+    let rounds = if rng.chance(0.35) { 2 } else { 1 };
+    for round in 0..rounds {
+        if round == 0 {
+            h.push(Op::WriteAll { p: p.clone(), n: rng.range(0, 9) as u32, key: rng.below(26) as u8, fe: fe(rng) });
+            if rng.coin() {
+                h.push(Op::SyncDir { p: parent.clone(), fe: Fe::Std });
+            }
+        }
+        // data ops
+        if rng.chance(0.5) {
+            h.push(Op::WriteAt { p: p.clone(), off: rng.below(6), n: rng.range(1, 6) as u32, key: rng.below(26) as u8, fe: *rng.pick(&[Fe::Std, Fe::Tokio, Fe::Uring]) });
+        }
+        let grow = *rng.pick(&[5u64, 8, 13, 21]);
+        match rng.below(4) {
+            0 => h.push(Op::SetLen { p: p.clone(), len: grow, fe: fe(rng) }),
+            1 => h.push(Op::Handle { p: p.clone(), fl: Flags::parse("rw"), steps: vec![Step::SetLen { len: grow }], fe: fe(rng) }),
+            2 => {
+                // shrink, then grow past the old end
+                h.push(Op::SetLen { p: p.clone(), len: rng.below(3), fe: fe(rng) });
+                h.push(Op::SetLen { p: p.clone(), len: grow, fe: fe(rng) });
+            }
+            _ => {} // no extension: plain write + sync through the chosen descriptor
+        }
+        // data sync
+        h.push(match rng.below(6) {
+            0 => Op::SyncAll { p: p.clone(), fe: fe(rng) },
+            1 => Op::SyncData { p: p.clone(), fe: fe(rng) },
+            2 => Op::SyncAll { p: p.clone(), fe: Fe::Uring },
+            3 => Op::Handle { p: p.clone(), fl: Flags::parse("r"), steps: vec![Step::SyncAll], fe: Fe::Uring },
+            4 => Op::Handle { p: p.clone(), fl: Flags::parse("r"), steps: vec![Step::SyncData], fe: fe(rng) },
+            _ => Op::Handle { p: p.clone(), fl: Flags::parse("r"), steps: vec![Step::SyncAll], fe: fe(rng) },
+        });
+        if rng.chance(0.8) {
+            h.push(Op::SyncDir { p: parent.clone(), fe: Fe::Std });
+        }
+        if rng.chance(0.3) {
+            // unsynced tail that the crash must roll back
+            h.push(Op::WriteAt { p: p.clone(), off: 0, n: 2, key: rng.below(26) as u8, fe: Fe::Std });
+        }
+        if round + 1 < rounds {
+            h.push(Op::Crash);
+        }
+    }
+    h
+}
+
+fn scenario_extend(ctx: &Ctx, idx: u64) -> ScenarioOut {
+    let mut rng = Rng::new(ctx.scenario_seed("extend", idx));
+    let cfg = c07_cfg(&mut rng);
+    let h = gen_extend(&mut rng);
+    let mut out = ScenarioOut::default();
+    let mut st = Stats::default();
+    out.count("histories_extend", 1);
+    if let Some(z) = crate::zones::in_zone(&h) {
+        out.count(&format!("zone_rejected:{z}"), 1);
+        out.discarded = Some("zone".into());
+        return out;
+    }
+    let (crashes, nontrivial, _max) = every_prefix(&mut out, &cfg, &h, &mut st, "extend");
+    for (k, v) in &st.c {
+        out.count(k, *v);
+    }
+    out.nontrivial = nontrivial > 0;
+    out.digest = vcore::digest_str(&format!(
+        "extend|{}|{}|{:?}",
+        crate::ops::canonical(&h),
+        cfg.sync_prob > 0.0,
+        cfg.block
+    ));
+    out.sample = Some(json!({"kind":"extend","cfg":cfg.to_json(),"history":hist_json(&h),
+        "crash_points":crashes,"nontrivial_crash_points":nontrivial}));
+    out
+}
+
 fn scenario_publish(ctx: &Ctx, idx: u64) -> ScenarioOut {
     let mut rng = Rng::new(ctx.scenario_seed("publish", idx));
     let cfg = c07_cfg(&mut rng);
@@ -491,8 +620,14 @@ fn judge(cfg: &Cfg, h: &[Op], recs: &[Rec], st: &mut Stats, who: &str) -> Outcom
     let mut out = Outcome::default();
     let mut it = recs.iter();
     let mut removed = Default::default();
+    let mut diverged_at_sync = false;
+    let mut ro_sync_dirty = false;
     for (i, op) in h.iter().enumerate() {
         if matches!(op, Op::Crash) {
+            diverged_at_sync = false;
+            if std::mem::take(&mut ro_sync_dirty) {
+                out.ro_sync_crashes += 1;
+            }
             let Some(Rec::Post(sw)) = it.next() else {
                 out.discarded = Some("sim-incomplete".into());
                 return out;
@@ -529,6 +664,15 @@ fn judge(cfg: &Cfg, h: &[Op], recs: &[Rec], st: &mut Stats, who: &str) -> Outcom
             return out;
         };
         diff::note_semantics(st, &model.v, op, &mut removed);
+        if op.is_ro_sync() {
+            if let Op::Handle { p, .. } = op {
+                if let Ok(i) = model.v.lookup(p) {
+                    if model.files.get(&i).map(|f| !f.log.is_empty()).unwrap_or(false) {
+                        ro_sync_dirty = true;
+                    }
+                }
+            }
+        }
         st.inc("sim_ops");
         let exp = model.v.apply(op);
         model.absorb();
@@ -537,9 +681,14 @@ fn judge(cfg: &Cfg, h: &[Op], recs: &[Rec], st: &mut Stats, who: &str) -> Outcom
             return out;
         }
         let ms = diff::model_sweep(&model.v, &uni);
-        if diff::sweep_diff(&uni, &ms, &sw[1..]).is_some() {
-            out.discarded = Some("volatile-divergence:state".into());
-            return out;
+        if !diverged_at_sync && diff::sweep_diff(&uni, &ms, &sw[1..]).is_some() {
+            if synclike(op) {
+                diverged_at_sync = true;
+                st.inc("precrash_divergence_at_sync_kept");
+            } else {
+                out.discarded = Some("volatile-divergence:state".into());
+                return out;
+            }
         }
     }
     out
@@ -699,11 +848,22 @@ fn scenario_sim(ctx: &Ctx, idx: u64) -> ScenarioOut {
     let mut cfg = c07_cfg(&mut rng);
     cfg.lat = Lat::None;
     let seed = rng.next_u64();
+    let mut out_tag = "";
     let (mut h0, r0) = gen_history(&mut rng, &gc);
+    let structured = rng.chance(0.3);
+    if structured {
+        // Sim::crash / bounce on the preallocate / read-only-fsync family
+        h0 = gen_extend(&mut rng);
+        out_tag = "sim_extend_histories";
+    }
     gc.crashes = false;
     let (mut h1, r1) = gen_history(&mut rng, &gc);
     // crash point for host 0: a random prefix, then the final crash
-    let k = rng.range(1, h0.len() as u64) as usize;
+    let k = if structured {
+        h0.len()
+    } else {
+        rng.range(1, h0.len() as u64) as usize
+    };
     h0.truncate(k);
     if !matches!(h0.last(), Some(Op::Crash)) {
         h0.push(Op::Crash);
@@ -713,6 +873,9 @@ fn scenario_sim(ctx: &Ctx, idx: u64) -> ScenarioOut {
     crate::gen::count_rejected(&mut out, &r0);
     crate::gen::count_rejected(&mut out, &r1);
     out.count("histories_sim", 1);
+    if !out_tag.is_empty() {
+        out.count(out_tag, 1);
+    }
     let mut st = Stats::default();
     let finish = [rng.coin(), rng.coin()];
     let os = run_sim(&cfg, seed, [&h0, &h1], finish, &mut st);
@@ -850,6 +1013,9 @@ pub fn finish_spec(ctx: &Ctx) -> Finish<'static> {
             "sim_crashes",
             "sim_bounces",
             "sim_crash_of_finished_host",
+            "histories_extend",
+            "crash_after_synced_extending_set_len",
+            "fsync_through_readonly_fd_then_crash",
             "histories_publish",
             "publish:cross_dir",
             "publish:same_dir",
@@ -917,6 +1083,17 @@ pub fn run(ctx: &Ctx) -> ! {
     rep.merge(r);
     rep.extra
         .insert("exhaustive_small_scope".into(), json!({"length": len, "alphabet": alphabet().len(), "histories": n_exh, "completed": exh_done}));
+    let n_ext = ctx.pick(4_000u64, 40_000);
+    let c2 = ctx.clone();
+    rep.merge(vcore::run_parallel(
+        ctx,
+        n_ext,
+        RunOpts {
+            budget_s: budget * 0.1,
+            scenario_timeout_s: 120.0,
+        },
+        move |i| scenario_extend(&c2, i),
+    ));
     let n_pub = ctx.pick(6_000u64, 60_000);
     let c2 = ctx.clone();
     rep.merge(vcore::run_parallel(
